@@ -1579,7 +1579,8 @@ def run_cases(tag, fn, terms, shard, ty, req=None):
         bad |= {todo[i] for i in b}
         again = []
         for k, out in e:
-            if out.strip():
+            # a verdict-free failure (killed without output, or the shard's files vanished under a concurrent run) is retried
+            if out.strip() and "Can't open" not in out and "No such file" not in out:
                 errors.append((todo[k], out))
             else:
                 again.extend(todo[k:k + size])
@@ -2117,7 +2118,7 @@ LEVEL_TEXT = (
     "with and without uniqueItems, duplicate-free <-> fully valid), mutated documents, a scalar probe of every ndarray field, molrecs from "
     "from_arrays with user masses/isotopes/ghosts through to_schema/from_schema on every field, whole molrecs through the record model of "
     "to_schema x {1,2} x np_out and from_schema (stream trans), damaged schema dictionaries through from_schema with every error class "
-    "(ValidationError, NotAnElementError, KeyError, IndexError; stream damaged-schema, per-damage and per-outcome hit counts), np.split/cumsum "
+    "(ValidationError, NotAnElementError, KeyError; stream damaged-schema, per-damage and per-outcome hit counts), np.split/cumsum "
     "core, unit factor; oracle on the implementation (jsonschema; full-field round trips v1/v2 x np_out; re-validation keeps the hash; input "
     "kept; Bohr).")
 LEVEL_NOTE = (
